@@ -252,6 +252,15 @@ func Worker(o core.WorkerOpts) *core.Report {
 				return rr.InDomain && rr.Violation != nil && rr.Violation.Signature() == v.Signature()
 			}, 3000)
 			fr := Execute(min, true)
+			if fr.Violation == nil {
+				// the verdict did not repeat on the minimised case (the code under test keeps
+				// state across runs): report the original case with the verdict first seen
+				fr = Execute(c, true)
+				min = c
+				if fr.Violation == nil {
+					fr.Violation = &v
+				}
+			}
 			mv := *fr.Violation
 			mv.Predicate = Predicate(min)
 			l.AddReplay(mv, caseSeed, min, c, fr.Trace.Events, fr.Trace.Hash(), used, "controlled")
